@@ -922,9 +922,18 @@ func isStringType(t types.Type) bool {
 // FieldAddrs, or a phi of those. Returns "owner.field" names; ok is false when some source is
 // not a field.
 func fieldsBehind(v ssa.Value) (fields []string, ok bool) {
+	return fieldsBehindImpl(v, false)
+}
+
+func fieldsBehindPtr(p ssa.Value) (fields []string, ok bool) {
+	return fieldsBehindImpl(p, true)
+}
+
+func fieldsBehindImpl(v ssa.Value, asPtr bool) (fields []string, ok bool) {
 	seen := map[ssa.Value]bool{}
 	ok = true
 	var ptr func(p ssa.Value, d int)
+	var fromTable func(structVal ssa.Value, field int, d int)
 	ptr = func(p ssa.Value, d int) {
 		if d > 8 || seen[p] {
 			return
@@ -943,6 +952,17 @@ func fieldsBehind(v ssa.Value) (fields []string, ok bool) {
 			}
 		case *ssa.UnOp:
 			if x.Op != token.MUL {
+				ok = false
+				return
+			}
+			// a pointer loaded from a field of a local copy of a table element (the range variable)
+			if fa, isFA := x.X.(*ssa.FieldAddr); isFA {
+				if al, isAl := fa.X.(*ssa.Alloc); isAl {
+					if sv := singleStore(al); sv != nil {
+						fromTable(sv, fa.Field, d)
+						return
+					}
+				}
 				ok = false
 				return
 			}
@@ -979,9 +999,59 @@ func fieldsBehind(v ssa.Value) (fields []string, ok bool) {
 			if n == 0 {
 				ok = false
 			}
+		case *ssa.Field:
+			// the pointer is a field of a struct taken from a table of structs (possibly built
+			// by a helper): {listener: &s.a}, {listener: &s.b}
+			fromTable(x.X, x.Field, d)
 		default:
 			ok = false
 		}
+	}
+	fromTable = func(structVal ssa.Value, field int, d int) {
+		{
+			elem, isLd := structVal.(*ssa.UnOp)
+			if !isLd || elem.Op != token.MUL {
+				ok = false
+				return
+			}
+			ia, isIA := elem.X.(*ssa.IndexAddr)
+			if !isIA {
+				ok = false
+				return
+			}
+			x := struct{ Field int }{field}
+			n := 0
+			for _, arr := range tableArrays(ia.X, 0) {
+				for _, r := range *arr.Referrers() {
+					slot, isSlot := r.(*ssa.IndexAddr)
+					if !isSlot || slot.Referrers() == nil {
+						continue
+					}
+					for _, rr := range *slot.Referrers() {
+						fa, isFA := rr.(*ssa.FieldAddr)
+						if !isFA || fa.Field != x.Field || fa.Referrers() == nil {
+							continue
+						}
+						for _, rrr := range *fa.Referrers() {
+							if st, isSt := rrr.(*ssa.Store); isSt && st.Addr == ssa.Value(fa) {
+								n++
+								ptr(st.Val, d+1)
+							}
+						}
+					}
+				}
+			}
+			if n == 0 {
+				ok = false
+			}
+		}
+	}
+	if asPtr {
+		ptr(v, 0)
+		if len(fields) == 0 {
+			ok = false
+		}
+		return fields, ok
 	}
 	ld, isLd := v.(*ssa.UnOp)
 	if !isLd || ld.Op != token.MUL {
@@ -1029,9 +1099,59 @@ func localCounterIn(v ssa.Value, seen map[ssa.Value]bool) bool {
 					base = sl.X
 				}
 			}
-			_, isAl := base.(*ssa.Alloc)
-			return isAl
+			if _, isAl := base.(*ssa.Alloc); isAl {
+				return true
+			}
+			// the length of a literal table built by a helper
+			return len(tableArrays(x.Common().Args[0], 0)) > 0
 		}
 	}
 	return false
+}
+
+// tableArrays: the array allocations behind a slice value that is a literal table: a slice of a
+// local array, a phi of such, or the result of a repository helper returning one.
+func tableArrays(v ssa.Value, d int) []*ssa.Alloc {
+	if v == nil || d > 4 {
+		return nil
+	}
+	switch x := v.(type) {
+	case *ssa.Slice:
+		return tableArrays(x.X, d+1)
+	case *ssa.Alloc:
+		if x.Referrers() != nil {
+			return []*ssa.Alloc{x}
+		}
+	case *ssa.Phi:
+		var out []*ssa.Alloc
+		for _, e := range x.Edges {
+			out = append(out, tableArrays(e, d+1)...)
+		}
+		return out
+	case *ssa.Call:
+		if h := staticCallee(x.Common()); h != nil && h.Blocks != nil && inRepo(h) {
+			var out []*ssa.Alloc
+			for _, r := range returnsOf(h) {
+				if len(r.Results) >= 1 {
+					out = append(out, tableArrays(r.Results[0], d+1)...)
+				}
+			}
+			return out
+		}
+	case *ssa.UnOp:
+		if al, ok := x.X.(*ssa.Alloc); ok && x.Op == token.MUL {
+			if sv := singleStore(al); sv != nil {
+				return tableArrays(sv, d+1)
+			}
+		}
+	}
+	return nil
+}
+
+// pointerTargets: the struct fields a pointer value may point to (see fieldsBehind, which takes
+// the loaded value; this takes the pointer itself).
+func pointerTargets(p ssa.Value) ([]string, bool) {
+	// reuse fieldsBehind through a synthetic view: the logic lives in its ptr walker, reached by
+	// wrapping p as if it were dereferenced
+	return fieldsBehindPtr(p)
 }
